@@ -361,7 +361,7 @@ package fix
 //@   ensures[C17] @trailer string(res) == cat(msgHead(msg), optL(wireComp(msg.header)), optL(wireItemsB(msg.body)), optL(wireCompN(msg.trailer)))
 
 //@ func (msg *Message) Prepare() (err error)
-//@   handover[C01,C05,C10,C17,C19]
+//@   handover[C01,C04,C05,C10,C17,C19]
 //@   requires msgWF(msg)
 //@   requires[C01] len(wireKV(msg.msgType)) > 0 && len(wireKV(msg.beginString)) > 0
 //@   modifies msg.prepared, msg.bodyLength.Value, msg.checkSum.Value.*
